@@ -431,35 +431,71 @@ Proof.
   - apply last_at_none in H. now rewrite H.
 Qed.
 
-Theorem move_views bs G s f t :
-  ViewsI bs G s -> guard bs G (body s) (OMove f t) ->
-  (in_posb f G = false /\ move_element fixed bs f t s = Err) \/
-  (in_posb f G = true /\ exists s', move_element fixed bs f t s = Ok s' /\ body s' = body s /\ ViewsI bs (g_move f t G) s').
+(* the move proper (after the checks of C13-8-fix), under what those checks establish *)
+Lemma move_core_views bs G s f t m :
+  ViewsI bs G s -> ~ In t (posl G) -> refs_listed bs G f -> In m G -> e_pos m = f -> refs f m = false ->
+  exists s', move_element_core fixed bs f t s = Ok s' /\ body s' = body s /\ ViewsI bs (g_move f t G) s'.
 Proof.
-  intros V [Ht [Hlisted Hself]]. apply in_posb_false in Ht. pose proof (vi_uniq _ _ _ V) as UG.
-  destruct (in_posb f G) eqn:Ef.
-  - right. split; [reflexivity|]. apply in_posb_true in Ef. apply posl_in in Ef as [m [Hm Hmp]].
-    assert (Hsm : refs f m = false) by (apply Hself; [exact Hm | now apply has_pos_true]).
-    destruct (el_move_result bs G s f t m V Ht Hm Hmp) as [fl [Hel [Ufl Hfl]]].
-    unfold move_element. rewrite Hel. cbn [fx_movelbl fixed].
-    change (if negb (pos_eqb (blockOf bs f) (blockOf bs t))
-            then aput (blockOf bs t) (el_add (bget (blk s) (blockOf bs t)) [set_pos m t]) (aput (blockOf bs f) fl (blk s))
-            else aput (blockOf bs f) fl (blk s)) with (bk2_of bs s f t m fl).
-    destruct (move_in_labels true (mkS (bk2_of bs s f t m fl) (tgs s) (lbl s) (cnt s) (body s)) f t (set_pos m t)) as [lbl' d] eqn:El.
-    destruct (move_label_view_and_counts bs G s f t m V Ht Hlisted Hm Hmp Hsm _ _ _ El) as [Hlv [Hl0 Hcnt]].
-    eexists. split; [reflexivity|]. split; [reflexivity|].
-    destruct (g_move_spec f t G UG Ht) as [UG' HG'].
-    constructor; cbn [blk tgs lbl cnt body e_rels e_tags set_pos].
-    + exact UG'.
-    + intros e He. apply HG' in He as [y [Hy ->]]. rewrite phi_tags. now apply (vi_tags _ _ _ V).
-    + intro b'. now apply (move_block_view bs G s f t m V Ht Hlisted Hm Hmp Hsm fl b').
-    + intro t'. now apply (move_tag_view bs G s f t m V Ht Hm Hmp t').
-    + exact Hlv.
-    + exact Hl0.
-    + apply count_step with (lb := lbl s); [apply (vi_count _ _ _ V) | exact Hcnt].
-  - left. split; [reflexivity|]. apply in_posb_false in Ef. unfold move_element.
-    assert (Hn : ~ In f (posl (bget (blk s) (blockOf bs f)))).
-    { intro Hi. apply Ef. apply posl_in in Hi as [y [Hy Ey]]. apply (vi_block _ _ _ V) in Hy as [Hy _]. rewrite <- Ey. now apply in_posl. }
-    pose proof (el_move_none f t (negb (pos_eqb (blockOf bs f) (blockOf bs t))) _ Hn) as H.
-    destruct (el_move f t (negb (pos_eqb (blockOf bs f) (blockOf bs t))) (bget (blk s) (blockOf bs f))) as [d r]. cbn in H. now rewrite H.
+  intros V Ht Hlisted Hm Hmp Hsm. pose proof (vi_uniq _ _ _ V) as UG.
+  destruct (el_move_result bs G s f t m V Ht Hm Hmp) as [fl [Hel [Ufl Hfl]]].
+  unfold move_element_core. rewrite Hel. cbn [fx_movelbl fixed].
+  change (if negb (pos_eqb (blockOf bs f) (blockOf bs t))
+          then aput (blockOf bs t) (el_add (bget (blk s) (blockOf bs t)) [set_pos m t]) (aput (blockOf bs f) fl (blk s))
+          else aput (blockOf bs f) fl (blk s)) with (bk2_of bs s f t m fl).
+  destruct (move_in_labels true (mkS (bk2_of bs s f t m fl) (tgs s) (lbl s) (cnt s) (body s)) f t (set_pos m t)) as [lbl' d] eqn:El.
+  destruct (move_label_view_and_counts bs G s f t m V Ht Hlisted Hm Hmp Hsm _ _ _ El) as [Hlv [Hl0 Hcnt]].
+  eexists. split; [reflexivity|]. split; [reflexivity|].
+  destruct (g_move_spec f t G UG Ht) as [UG' HG'].
+  constructor; cbn [blk tgs lbl cnt body e_rels e_tags set_pos].
+  - exact UG'.
+  - intros e He. apply HG' in He as [y [Hy ->]]. rewrite phi_tags. now apply (vi_tags _ _ _ V).
+  - intro b'. now apply (move_block_view bs G s f t m V Ht Hlisted Hm Hmp Hsm fl b').
+  - intro t'. now apply (move_tag_view bs G s f t m V Ht Hm Hmp t').
+  - exact Hlv.
+  - exact Hl0.
+  - apply count_step with (lb := lbl s); [apply (vi_count _ _ _ V) | exact Hcnt].
+Qed.
+
+(* the checks read the two blocks; on a state whose blocks are views of G they decide like the
+   same checks on G itself *)
+Lemma move_check_views bs G s f t : ViewsI bs G s ->
+  move_check f t (bget (blk s) (blockOf bs f)) (bget (blk s) (blockOf bs t)) = move_check f t G G.
+Proof.
+  intro V. pose proof (vi_uniq _ _ _ V) as UG. unfold move_check.
+  destruct (vi_block _ _ _ V (blockOf bs f)) as [Uf Hf]. destruct (vi_block _ _ _ V (blockOf bs t)) as [Ut Htb].
+  destruct (find (has_pos f) G) as [m|] eqn:EG.
+  - apply find_some in EG as [Hm Hmp]. apply has_pos_true in Hmp.
+    rewrite (find_has_pos_uniq f _ m Uf); [|apply Hf; split; [exact Hm | now rewrite Hmp] | exact Hmp].
+    destruct (pos_eqb f t); [reflexivity|]. destruct (refs f m || refs t m); [reflexivity|].
+    replace (existsb (has_pos t) (bget (blk s) (blockOf bs t))) with (existsb (has_pos t) G); [reflexivity|].
+    destruct (existsb (has_pos t) G) eqn:E1; symmetry.
+    + apply existsb_has_pos in E1. apply posl_in in E1 as [y [Hy Ey]].
+      assert (Hyl : In y (bget (blk s) (blockOf bs t))) by (apply Htb; split; [exact Hy | now rewrite Ey]).
+      apply existsb_has_pos. apply in_posl in Hyl. now rewrite Ey in Hyl.
+    + apply not_true_is_false. intro E2. apply existsb_has_pos in E2. apply posl_in in E2 as [y [Hy Ey]]. apply Htb in Hy as [Hy _].
+      assert (existsb (has_pos t) G = true) by (apply existsb_has_pos; rewrite <- Ey; now apply in_posl). congruence.
+  - apply find_has_pos_none in EG.
+    assert (En : find (has_pos f) (bget (blk s) (blockOf bs f)) = None).
+    { apply find_has_pos_none. intro Hi. apply EG. apply posl_in in Hi as [y [Hy Ey]]. apply Hf in Hy as [Hy _]. rewrite <- Ey. now apply in_posl. }
+    now rewrite En.
+Qed.
+
+Theorem move_views bs G s f t :
+  ViewsI bs G s -> refs_listed bs G f ->
+  ViewsI bs (gstep bs (OMove f t) G) (step_or_stay fixed bs (OMove f t) s)
+  /\ body (step_or_stay fixed bs (OMove f t) s) = body s
+  /\ step fixed bs (OMove f t) s <> Panic.
+Proof.
+  intros V Hlisted. unfold step_or_stay. cbn [step gstep]. unfold move_element. cbn [fx_valid fixed].
+  rewrite (move_check_views bs G s f t V). unfold move_check.
+  destruct (find (has_pos f) G) as [m|] eqn:EG.
+  2:{ split; [exact V | split; [reflexivity | discriminate]]. }
+  apply find_some in EG as [Hm Hmp]. apply has_pos_true in Hmp.
+  destruct (pos_eqb f t); [split; [exact V | split; [reflexivity | discriminate]]|].
+  destruct (refs f m || refs t m) eqn:Er; [split; [exact V | split; [reflexivity | discriminate]]|].
+  apply orb_false_iff in Er as [Er _].
+  destruct (existsb (has_pos t) G) eqn:Et; [split; [exact V | split; [reflexivity | discriminate]]|].
+  assert (Ht : ~ In t (posl G)) by (intro Hi; apply existsb_has_pos in Hi; congruence).
+  destruct (move_core_views bs G s f t m V Ht Hlisted Hm Hmp Er) as [s' [E [Eb V']]]. rewrite E.
+  split; [exact V' | split; [exact Eb | discriminate]].
 Qed.
